@@ -106,9 +106,24 @@ def build_native():
     with Lock('native'):
         rc, out, err, s = run(['cargo', 'build', '--offline', '--manifest-path', os.path.join(REPO, 'Cargo.toml'),
                                '--target-dir', tgt, '--bin', 'qmluic'], timeout=1200)
-    if rc != 0:
-        raise Inconclusive('native build of /repo failed:\n' + err[-3000:])
-    return os.path.join(tgt, 'debug', 'qmluic')
+        if rc != 0:
+            raise Inconclusive('native build of /repo failed:\n' + err[-3000:])
+        # hand out a private copy keyed by the tree: a concurrent check that rebuilds after an edit of /repo
+        # must not pull the binary away from under a running one
+        bindir = os.path.join(CACHE, 'bin')
+        os.makedirs(bindir, exist_ok=True)
+        dst = os.path.join(bindir, 'qmluic-' + tree_hash())
+        if not os.path.exists(dst):
+            tmp = dst + '.tmp%d' % os.getpid()
+            shutil.copy2(os.path.join(tgt, 'debug', 'qmluic'), tmp)
+            os.replace(tmp, dst)
+            old = sorted((os.path.getmtime(os.path.join(bindir, f)), f) for f in os.listdir(bindir))
+            for _, f in old[:-6]:
+                try:
+                    os.remove(os.path.join(bindir, f))
+                except OSError:
+                    pass
+    return dst
 
 
 # ----------------------------------------------------------------------------- findings
